@@ -117,6 +117,15 @@ def ensure_built(clean=False):
 # ---------------------------------------------------------------------------------------------
 # Scripts
 
+def vlist(elems):
+    return "l[" + ",".join(hx(e) for e in elems) + "]"
+def vstr(s): return "s" + hx(s)
+def vint(n): return "i%d" % n
+def vfloat(num, den=1): return "f%d/%d" % (num, den)
+def vhash(d): return "h{" + ",".join("%s:%s" % (hx(k), v) for k, v in sorted(d.items(), key=lambda kv: kv[0].encode("latin-1") if isinstance(kv[0], str) else kv[0])) + "}"
+def vset(ms): return "S{" + ",".join(hx(m) for m in sorted(set(ms), key=lambda m: m.encode("latin-1"))) + "}"
+def vzset(d): return "z{" + ",".join("%s:%s" % (hx(k), v) for k, v in sorted(d.items(), key=lambda kv: kv[0].encode("latin-1"))) + "}"
+
 def hx(b):
     if isinstance(b, str):
         b = b.encode("latin-1")
@@ -130,6 +139,11 @@ class Script:
     def cmd(self, conn, *argv):
         self.lines.append("C %d %s" % (conn, " ".join(hx(a) for a in argv)))
         self.events.append(["cmd", conn] + [a if isinstance(a, str) else a.decode("latin-1") for a in argv])
+        return self
+    def preset(self, db, key, value, deadline=0):
+        """value in canonical digest text, e.g. l[61,62]  s76  i12  h{66:s76}  S{6d}  z{6d:1/1}"""
+        self.lines.append("P %d %s %s %d" % (db, hx(key), value, deadline))
+        self.events.append(["preset", db, key if isinstance(key, str) else key.decode("latin-1"), value, deadline])
         return self
     def advance(self, ms):
         self.lines.append("A %d" % ms); self.events.append(["advance", ms]); return self
